@@ -57,6 +57,17 @@ def make_case(seed, index, tier):
         users.append({'name': 'bg', 'until': rng.choice([0.5, 1, 2, 3, 5]),
                       'rounds': [[rng.choice(OFFSETS), 'inf', rng.choice([None, 0.5, 1, 4])]]})
     scenario = {'throughput': throughput, 'users': users}
+    if index % 20 == 9:
+        # a near-tie that is *not* a matter of rounding: a transfer that has a real remainder
+        # (2**-k of its volume, far above float noise) left when a transfer with a vastly larger
+        # limit joins is starved by it for a long time
+        k = rng.choice([30, 40, 44])
+        big = 2.0 ** rng.choice([40, 50])
+        volume = rng.choice([1, 2, 4])
+        users = [{'name': 'u0', 'rounds': [[0, volume, volume]]},
+                 {'name': 'u1', 'rounds': [[1 - 2.0 ** -k, rng.choice([100, 1000]), big]]}]
+        return {'seed': seed, 'index': index, 'tier': tier,
+                'scenario': {'throughput': volume, 'users': users}}
     if rng.random() < 0.3:
         scenario['other_pipe'] = {
             'throughput': rng.choice([0.5, 1, 3]),
